@@ -22,7 +22,11 @@ class VirtualToReal:
 
   def _substitute_virtual_line(self, previous):
     self._gfa = previous.gfa
-    self._import_references(previous)
+    try:
+      self._import_references(previous)
+    except:
+      self._undo_partial_connection(previous.gfa)
+      raise
     self._gfa._unregister_line(previous)
     self._gfa._register_line(self)
     return None
